@@ -232,7 +232,9 @@ func (d *db) rebuildLog(logNum fileNum) (err error) {
 	defer func() {
 		err = firstError(err, f.Sync())
 		err = firstError(err, f.Close())
-		err = firstError(err, d.opts.FS.Rename(fn, ln))
+		if err == nil {
+			err = d.opts.FS.Rename(fn, ln)
+		}
 		err = firstError(err, d.dataDir.Sync())
 	}()
 	w := newWriter(f)
